@@ -1,19 +1,40 @@
-UF = 'mouette.utils.unionfind.UnionFind.'
 PROP = {
-    'id': 'C10',
-    'specs': ['specs.trees', 'specs.unionfind'],
-    'functions': ['mouette.processing.trees.edge_sp.EdgeSpanningTree._avoid_edge'] + [UF + f for f in ('__init__', 'add', 'find', 'connected', 'union')],
-    'level': 'other',
-    'explanation': 'Deductive part: the exclusion predicate of the vertex tree (an edge is skipped exactly when its id is in the exclusion set or it lies on the border when asked) '
-                   'and the union-find that Kruskal relies on (connected <=> joined by unions) are proved for all inputs. The BFS / Kruskal / traversal loops (closures over deques, '
-                   'generators) are not yet under contract; clauses (a)-(g) are decided for them only by the bounded native contract, which is not a proof.',
-    'trusted_base': ['A1', 'A3', 'A5', 'assumed C01 contracts: edge_id(a,b) and is_edge_on_border(a,b) are functions of the unordered vertex pair'],
-    'bounded': [
-        {'name': 'all', 'function': 'Edge/Face/Cell SpanningTree, EdgeMinimalSpanningTree, Edge/Face/Cell SpanningForest, traverse', 'engine': 'Br (native run-time contract)',
-         'bound': '6 meshes (jittered 4x4, 3x5 tri grids, 3x4 quad grid, a 2-component surface, a chain, a 3-component polyline) x 3 roots x 4 exclusion sets (incl. edge id 0) x '
-                  'avoid_boundary on/off; MST with weights one/length/custom (ties) compared with an independent Kruskal; face trees with 4 forbidden sets; all 6 cells of a Kuhn cube: 281 cases; '
-                  'checked: reach, edge count, adjacency, parent/children consistency, BFS hop distance, both traversal orders, one tree per component'},
-    ],
-    'not_decided': ['clauses (a)-(g) for all meshes: bounded only', 'minimality of the MST weight rests on the cut property even once Kruskal is under contract'],
-    'math': [],
+ "id": "C10",
+ "specs": [
+  "specs.trees",
+  "specs.unionfind",
+  "specs.kruskal"
+ ],
+ "functions": [
+  "mouette.processing.trees.edge_sp.EdgeSpanningTree._avoid_edge",
+  "mouette.utils.unionfind.UnionFind.__init__",
+  "mouette.utils.unionfind.UnionFind.add",
+  "mouette.utils.unionfind.UnionFind.find",
+  "mouette.utils.unionfind.UnionFind.connected",
+  "mouette.utils.unionfind.UnionFind.union",
+  "mouette.processing.trees.edge_sp.EdgeMinimalSpanningTree.compute#kruskal"
+ ],
+ "level": "other",
+ "explanation": "Deductive part: (1) Kruskal's loop of EdgeMinimalSpanningTree.compute, as a region contract on the real statements, checked against the union-find contracts: for every mesh and every candidate list the tree edge list has exactly |V| - #classes entries (each accepted edge merged two different classes: the list is a forest), the end points of every candidate processed are joined (the forest spans every component of the admissible graph), and every tree edge is the sorted pair of end points of a candidate mesh edge; (2) the exclusion predicate of the vertex tree (an edge is skipped exactly when its id is in the exclusion set or it lies on the border when asked); (3) the union-find itself (connected <=> joined by unions, component count). Minimality of the total weight, the BFS trees, the parent/children orientation and traversal (closures over deques, generators) are not under contract; those clauses are decided only by the bounded native contract, which is not a proof.",
+ "trusted_base": [
+  "A1",
+  "A3",
+  "A5",
+  "assumed C01 contracts: edge_id(a,b) and is_edge_on_border(a,b) are functions of the unordered vertex pair",
+  "vertex indices are embedded into the abstract element sort of the union-find contracts by an injective function (the contracts are parametric in the element type)",
+  "Kruskal region: the statements before it establish its precondition (valid candidate edge indices, empty tree edge list, one neighbour set per vertex) - not verified; the statements after it (orientation by BFS) are outside the region"
+ ],
+ "bounded": [
+  {
+   "name": "all",
+   "function": "Edge/Face/Cell SpanningTree, EdgeMinimalSpanningTree, Edge/Face/Cell SpanningForest, traverse",
+   "engine": "Br (native run-time contract)",
+   "bound": "6 meshes (jittered 4x4, 3x5 tri grids, 3x4 quad grid, a 2-component surface, a chain, a 3-component polyline) x 3 roots x 4 exclusion sets (incl. edge id 0) x avoid_boundary on/off; MST with weights one/length/custom (ties) compared with an independent Kruskal; face trees with 4 forbidden sets; all 6 cells of a Kuhn cube: 281 cases; checked: reach, edge count, adjacency, parent/children consistency, BFS hop distance, both traversal orders, one tree per component"
+  }
+ ],
+ "not_decided": [
+  "clauses (a)-(g) for all meshes: bounded only",
+  "minimality of the MST weight rests on the cut property even once Kruskal is under contract"
+ ],
+ "math": []
 }
